@@ -885,3 +885,6 @@ HARNESSES = [
     Harness("C09.reset", reset, functions=[GeneralThermodynamics.clearCache, MulticomponentThermodynamics.clearCache, GeneralThermodynamics._resetDrivingForceCache, HashTable.clearCache],
             params={"quick": [{"multi": False}, {"multi": True}], "thorough": [{"multi": False}, {"multi": True}]}),
 ]
+
+from harness.c09_extra import EXTRA as _EXTRA
+HARNESSES = HARNESSES + _EXTRA
